@@ -8,7 +8,7 @@ import json
 import re
 import sqlite3
 
-from vcheck import Machinery, pmap
+from vcheck import Machinery, pmap, guarded
 
 _TOK = re.compile(r"\s+|[A-Za-z_][A-Za-z_0-9.]*|\?|%s|\(|\)|,|!=|<=|>=|=|<|>|[01]\b")
 _WORDS = {'SELECT', 'id', 'a', 'b', '_a', '_b', 'FROM', 't', 'tu', 'WHERE', 'AND', 'OR', 'IN', 'NOT', 'IS', 'NULL', 'LIKE', 'ORDER',
@@ -157,6 +157,7 @@ def _shape(c):
     return (k, c.get('f'), c.get('neg'))
 
 
+@guarded(lambda m: (m, None))
 def run_case(job):
     case, table, variant = job[:3]
     if isinstance(case, str):
